@@ -133,15 +133,17 @@ Definition receiver_error (e0 : merr) (on : ioty) (prev : vty) : merr :=
   let e1 := if receiver_type_mismatch on prev then Some [EWrongReceiverType] else e0 in
   if receiver_io_mismatch on prev then set_error e1 [EWrongReceiverType] else e1.
 
-(** the refinement of a PT_Any return by the underlying kind of the receiver's schema value *)
+(** the refinement of a return type (PT_Any, Single) — a function that returns one
+    element of its input: First, Last, Index — by the underlying kind of the
+    receiver's schema value; every other return type is reported as it is *)
 Definition refine_return (ret : ioty) (k : ckind) : ioty :=
-  match fst ret with
-  | PT_Any =>
+  match ret with
+  | (PT_Any, IO_Single) =>
     match k with
-    | KBool => (PT_Boolean, snd ret)
-    | KString => (PT_String, snd ret)
-    | KNumber | KInt | KFloat => (PT_Number, snd ret)
-    | KStruct => (PT_Object, snd ret)
+    | KBool => (PT_Boolean, IO_Single)
+    | KString => (PT_String, IO_Single)
+    | KNumber | KInt | KFloat => (PT_Number, IO_Single)
+    | KStruct => (PT_Object, IO_Single)
     | _ => ret                                   (* list: Any; bytes, `_`, bottom: untouched *)
     end
   | _ => ret
@@ -367,7 +369,8 @@ with validate_func (f : func) (cue_path : list str) (prev : vty) {struct f} : pa
         let k := underlying_kind v in
         let ty := refine_return (fd_ret fd) k in
         let known := fd_known fd in
-        let in_known_branch := known && vty_io_is prev IO_Array && ckind_eqb k KStruct in
+        let in_known_branch := known && iotype_eqb (snd (fd_ret fd)) IO_Single
+                               && vty_io_is prev IO_Array && ckind_eqb k KStruct in
         let ty' := if in_known_branch then (PT_Object, snd ty) else ty in
         (* getAvailableFieldsForValue(getUnderlyingValue(cuePathValue)) *)
         let fields_fail := in_known_branch &&
